@@ -7,11 +7,14 @@
 (*                                                                         *)
 (* The module has four parts.                                              *)
 (*                                                                         *)
-(*  ELEMENTS  records [kind, degree, refsize, physsize, subs]; the TRUE    *)
-(*            degree of a PHYSICAL component is defined from first         *)
-(*            principles: CompDeg walks the sub-elements with their        *)
+(*  ELEMENTS  records [kind, degree, refsize, physsize, subs, bshape, map]; *)
+(*            the TRUE degree of a PHYSICAL component is defined from      *)
+(*            first principles: CompDeg walks the sub-elements with their  *)
 (*            PHYSICAL sizes (a Piola map on an affine cell is a constant  *)
-(*            matrix, it does not change polynomial degrees).              *)
+(*            matrix, it does not change polynomial degrees).  Mixed and   *)
+(*            symmetric elements nest freely; the sub-elements of a        *)
+(*            symmetric element may be vector / tensor valued, Piola       *)
+(*            mapped or composite, with any block shape and symmetry map.  *)
 (*  TERMS     a term algebra for polynomial integrands (one node per UFL   *)
 (*            expression node) with shapes and free indices, built step by *)
 (*            step: one action per constructor of the public API.          *)
@@ -84,24 +87,51 @@ Rev(s) == [k \in DOMAIN s |-> s[Len(s) + 1 - k]]
 -----------------------------------------------------------------------------
 (* ELEMENTS *)
 
-P(d)       == [kind |-> "P", degree |-> d, refsize |-> 1, physsize |-> 1, subs |-> <<>>]
-VecP(d, n) == [kind |-> "vecP", degree |-> d, refsize |-> n, physsize |-> n, subs |-> <<>>]
+\* records [kind, degree, refsize, physsize, subs, bshape, map]; bshape / map only for symmetric
+El(k, d, r, p, ss, bs, m) ==
+  [kind |-> k, degree |-> d, refsize |-> r, physsize |-> p, subs |-> ss, bshape |-> bs, map |-> m]
+P(d)       == El("P", d, 1, 1, <<>>, <<>>, <<>>)
+VecP(d, n) == El("vecP", d, n, n, <<>>, <<>>, <<>>)
 \* a vector element with a (co/contra)variant Piola map: TDim reference, GDim physical components
-RT(d)      == [kind |-> "RT-like", degree |-> d, refsize |-> TDim, physsize |-> GDim, subs |-> <<>>]
+RT(d)      == El("RT-like", d, TDim, GDim, <<>>, <<>>, <<>>)
 \* embedded_superdegree of a mixed / symmetric element = max over the sub-elements
-Mixed(ss)  == [kind |-> "mixed", degree |-> SeqMaxI([i \in DOMAIN ss |-> ss[i].degree]),
-               refsize |-> SeqSumI([i \in DOMAIN ss |-> ss[i].refsize]),
-               physsize |-> SeqSumI([i \in DOMAIN ss |-> ss[i].physsize]), subs |-> ss]
-\* symmetric 2x2 tensor of three scalar sub-elements; physical component (i, j), flattened
-\* 2 i + j, is the sub-element SymMap[2 i + j + 1]
+SubMaxDeg(ss) == SeqMaxI([i \in DOMAIN ss |-> ss[i].degree])
+SubRefSum(ss) == SeqSumI([i \in DOMAIN ss |-> ss[i].refsize])
+\* the physical value of a mixed element is the concatenation of the FLATTENED physical values
+\* of its sub-elements (MixedPullback.physical_value_shape)
+Mixed(ss)  == El("mixed", SubMaxDeg(ss), SubRefSum(ss),
+                 SeqSumI([i \in DOMAIN ss |-> ss[i].physsize]), ss, <<>>, <<>>)
+\* symmetric element (SymmetricPullback): a block of shape bshape whose entry with row-major
+\* position b (0-based) IS the sub-element map[b + 1] -- a sub-element INDEX, 1-based here.  All
+\* sub-elements have the same reference value shape; they may be vector / tensor valued, Piola
+\* mapped or themselves composite: the physical shape is bshape \o (physical shape of a
+\* sub-element) (SymmetricPullback.physical_value_shape), physical component (block, c) is
+\* component c of sub-element map[block].  The reference value is the concatenation of the
+\* sub-elements' reference values.
+RECURSIVE SeqProdI(_)
+SeqProdI(s) == IF s = <<>> THEN 1 ELSE Head(s) * SeqProdI(Tail(s))
+SymG(bs, m, ss) == El("symmetric", SubMaxDeg(ss), SubRefSum(ss), SeqProdI(bs) * ss[1].physsize, ss, bs, m)
+\* the usual symmetric 2x2 tensor of three sub-elements
 SymMap == <<1, 2, 2, 3>>
-Sym(ss)    == [kind |-> "symmetric", degree |-> SeqMaxI([i \in DOMAIN ss |-> ss[i].degree]),
-               refsize |-> SeqSumI([i \in DOMAIN ss |-> ss[i].refsize]),
-               physsize |-> 4, subs |-> ss]
+Sym(ss)    == SymG(<<2, 2>>, SymMap, ss)
 
+RECURSIVE PhysShape(_)
 PhysShape(e) == CASE e.kind = "P" -> <<>>
-                  [] e.kind = "symmetric" -> <<2, 2>>
+                  [] e.kind = "symmetric" -> e.bshape \o PhysShape(e.subs[1])
                   [] OTHER -> <<e.physsize>>
+
+\* well-formed pool elements (what ufl accepts)
+RECURSIVE ElemOK(_)
+ElemOK(e) ==
+  /\ \A i \in DOMAIN e.subs : ElemOK(e.subs[i])
+  /\ e.kind \in {"mixed", "symmetric"} => Len(e.subs) >= 1
+  /\ e.kind = "symmetric" =>
+        /\ Len(e.map) = SeqProdI(e.bshape)
+        /\ \A b \in DOMAIN e.map : e.map[b] \in DOMAIN e.subs
+        /\ \A i \in DOMAIN e.subs : /\ e.subs[i].refsize = e.subs[1].refsize
+                                     /\ PhysShape(e.subs[i]) = PhysShape(e.subs[1])
+                                     /\ e.subs[i].physsize = e.subs[1].physsize
+ASSUME PoolOK == \A i \in DOMAIN Elems : ElemOK(Elems[i])
 
 \* row-major flattening of a fixed multi-index (flatten_multiindex / shape_to_strides)
 RECURSIVE Flat(_, _)
@@ -121,8 +151,15 @@ RECURSIVE CompDeg(_, _)
 CompDeg(e, c) ==
   CASE e.kind = "mixed" -> LET w == Walk(e.subs, c, 1, 0, "physical") IN
                            CompDeg(e.subs[w[1]], c - w[2])
-    [] e.kind = "symmetric" -> CompDeg(e.subs[SymMap[c + 1]], 0)
+    [] e.kind = "symmetric" -> LET ps == e.subs[1].physsize IN
+                               CompDeg(e.subs[e.map[(c \div ps) + 1]], c % ps)
     [] OTHER -> e.degree
+
+\* the position of physical flat component c among the INDEPENDENT components of the element
+\* (components of a symmetric element that are the same function get the same position)
+IndepComp(e, c) == IF e.kind = "symmetric"
+                   THEN LET ps == e.subs[1].physsize IN e.map[(c \div ps) + 1] * ps + (c % ps)
+                   ELSE c
 
 -----------------------------------------------------------------------------
 (* TERMS *)
@@ -274,8 +311,7 @@ PSumSet(S, f) == IF S = {} THEN PZero
 TermPoly(t, c) ==
   CASE t.op \in {"coef", "arg"} ->
          LET e == Elems[t.n]  fc == Flat(c, PhysShape(e)) IN
-         PFull(CompDeg(e, fc), 5 * t.n + (IF t.op = "arg" THEN 3 + t.mi[1] ELSE 0)
-                               + (IF e.kind = "symmetric" THEN SymMap[fc + 1] ELSE fc))
+         PFull(CompDeg(e, fc), 5 * t.n + (IF t.op = "arg" THEN 3 + t.mi[1] ELSE 0) + IndepComp(e, fc))
     [] t.op = "x" -> PVar(c[1])
     [] t.op = "X" -> PFull(1, c[1])
     [] t.op = "lit" -> PConst(t.n)
@@ -340,14 +376,18 @@ H_list_tensor(s) == MaxDegrees(s)
 \*                advance by sub_element.reference_value_size; when no sub-element is found
 \*                (component beyond the reference size) the code falls through to A.
 \*   "physical":  INTENDED -- offsets advance by the physical value size; a symmetric element
-\*                maps the component through its symmetry.
+\*                maps the leading (block) part of the component through its symmetry to a
+\*                sub-element INDEX (the trailing part selects a component of that vector /
+\*                tensor valued sub-element and plays no role).
 H_indexed(t, A, rule) ==
   LET op == t.args[1] IN
   IF op.op \in {"coef", "arg"} /\ \A k \in DOMAIN t.mi : ~IsName(t.mi[k])
   THEN LET e == Elems[op.n] IN
        IF e.subs # <<>> /\ Len(t.mi) = Len(PhysShape(e))
        THEN LET comp == Flat(t.mi, PhysShape(e)) IN
-            IF rule = "physical" /\ e.kind = "symmetric" THEN e.subs[SymMap[comp + 1]].degree
+            IF rule = "physical" /\ e.kind = "symmetric"
+            THEN LET block == SubSeq(t.mi, 1, Len(e.bshape)) IN      \* component[: len(block_shape)]
+                 e.subs[e.map[Flat(block, e.bshape) + 1]].degree     \* sub_elements[symmetry[block]]
             ELSE LET w == Walk(e.subs, comp, 1, 0, rule) IN
                  IF w[1] = 0 THEN A ELSE e.subs[w[1]].degree
        ELSE A
